@@ -244,3 +244,53 @@ def t_child_state(host='HsmEventProcessor'):
         c.prove('child_state:post/no-action-no-offer', _mon_unchanged(c, snap), tags=('C22',))
         c.cover('child_state:cover')
     return Target('child_state@%s' % host, run, [CORE + 'child_state'])
+
+
+# ------------------------------------------------------------------ C24: weakened handler contract
+def t_start_at_weak():
+    def run(it):
+        c, g = it.c, it.c.ghost
+        self = make_chart(it, 'HsmEventProcessor', with_queues=False)
+        S = c.fresh_ref('S', 'state', distinct=False)
+        c.assume(z3.And(is_state(S.e), S.e != TOP))
+        H.mon_init(c, TOP, S.e, H.ENTERING)
+        c.pyghost['state_fun0'] = TOP
+        c.pyghost['start_state'] = S.e
+        out = run_body(it, method(it, self, 'start_at'), [S])
+        if out.raised is None:
+            c.prove('start_at[malformed]:post/returns-only-if-every-initial-transition-went-inside',
+                    z3.Not(g['g_bad']), tags=('C24',))
+            c.prove('start_at[malformed]:post/rests-in-last-init-target',
+                    z3.And(g['g_cur'] == g['g_goal'], H.state_fun(it, self) == g['g_cur'], z3.Not(g['g_last_in_tran'])),
+                    tags=('C24',))
+        else:
+            c.prove('start_at[malformed]:post/fails-with-HsmTopologyException', out.raised == 'HsmTopologyException',
+                    tags=('C24',))
+            c.prove('start_at[malformed]:post/fails-only-for-a-malformed-chart', g['g_bad'], tags=('C24',))
+        c.cover('start_at[malformed]:cover')
+    return Target('start_at[weak contract]', run, [CORE + 'start_at', CORE + 'init'])
+
+
+def t_dispatch_weak():
+    def run(it):
+        c, g = it.c, it.c.ghost
+        self, cur = H.chart_pre(it, 'HsmEventProcessor')
+        e = symbolic_event(it)
+        H.mon_init(c, cur, NONE, H.SEARCH, offer_next=cur)
+        g['g_L'] = NONE
+        c.pyghost['cur0'] = cur
+        out = run_body(it, method(it, self, 'dispatch'), [e])
+        none = bool(c.pyghost.get('returned_none'))
+        if out.raised is None:
+            c.prove('dispatch[malformed]:post/returns-only-if-nothing-was-malformed',
+                    z3.And(z3.Not(g['g_bad']), z3.BoolVal(not none)), tags=('C24',))
+            c.prove('dispatch[malformed]:post/rests-in-last-init-target',
+                    z3.Implies(g['g_answer'] == 1, z3.And(g['g_cur'] == g['g_goal'], H.state_fun(it, self) == g['g_cur'])),
+                    tags=('C24',))
+        else:
+            c.prove('dispatch[malformed]:post/fails-with-HsmTopologyException', out.raised == 'HsmTopologyException',
+                    tags=('C24',))
+            c.prove('dispatch[malformed]:post/fails-only-for-a-malformed-chart', z3.Or(g['g_bad'], z3.BoolVal(none)),
+                    tags=('C24',))
+        c.cover('dispatch[malformed]:cover')
+    return Target('dispatch[weak contract]', run, [CORE + 'dispatch', CORE + 'trans_'])
